@@ -30,7 +30,8 @@ pub struct Handle(pub u32);
 //@@ type file=fe2o3-amqp-types/src/performatives/transfer.rs kind=struct name=Transfer
 //@@ end
 
-pub const FRAME_TYPE_AMQP: u8 = 0x00;
+//@@ type file=fe2o3-amqp/src/frames/mod.rs kind=const name=FRAME_TYPE_AMQP
+//@@ end
 
 // ---- bytes stand-ins -------------------------------------------------------------------------
 pub trait BufSrc: Sized {
@@ -418,7 +419,9 @@ impl FrameEncoder {
 //@@ end
 }
 // ---- SASL frames (frames/sasl.rs): Encoder<Frame> for FrameCodec ----
-pub const FRAME_TYPE_SASL: u8 = 0x01;
+//@@ type file=fe2o3-amqp/src/frames/mod.rs kind=const name=FRAME_TYPE_SASL
+//@@ end
+proof fn spec_frame_types() ensures FRAME_TYPE_AMQP == 0x00, FRAME_TYPE_SASL == 0x01 {}      // [C06.constants.frame-types] [C19.constants.frame-types]
 #[verifier::external_body]
 pub struct SaslFrame { _p: u8 }
 impl SaslFrame {
